@@ -542,7 +542,7 @@ fn pass_case_class(rec: &mut Recorder, tag: &str, cfg: &Cfg, dir: &str, taint: &
 }
 
 /// does the code under test compare the inputs left after the last output of a garbage collection
-/// with the collector (fixes/c04-verify-gc-tail.diff)?  Decided on one directed directory: inputs
+/// with the collector (a variant of verify_gc tried in a scratch copy, not in /repo)?  Decided on one directed directory: inputs
 /// {a@5, a@2, b@3}, policy versions = 1, output {a@5} and D = setsum{a@2, b@3}.
 fn tail_checked() -> bool {
     static T: std::sync::OnceLock<bool> = std::sync::OnceLock::new();
